@@ -707,6 +707,35 @@ QBig ==
                     ELSE Advance(Res(SX!SetToSeq({Mis(e, o, pre \o tg, 0, First(tg), e.out[First(tg)], cl(First(tg)).exp) : tg \in btags}),
                                      Cardinality(bad), Len(e.rel), tags), objs)
 
+\* position iterators started at base + rel: the positions of the bit, in increasing order
+IthBig ==
+    /\ IsEv("ithbig")
+    /\ LET e == Ev
+       IN  IF ~Live(e.o) \/ objs[e.o].fam # "BIG" THEN Advance(ResOk(0, {}), objs)
+           ELSE LET o == objs[e.o]
+                    d == Rec[BigLineOf(o)]
+                    base == d.base
+                    bv == BigVal[BigLineOf(o)]
+                    fill == IF Has(d, "fill") THEN d.fill ELSE 0
+                    bit == IF e.m \in {"ones", "ones_with_pos"} THEN 1 ELSE 0
+                    rel == IF e.m \in {"ones", "zeros"} THEN 0 ELSE e.rel
+                    Pb == IF bit = 1 THEN bv.P1 ELSE bv.P0
+                    \* offsets (from base) of the expected positions: the rest of the leading run, then the tail
+                    lead == IF bit = fill /\ rel < 0 THEN [q \in 1..(-rel) |-> rel + q - 1] ELSE << >>
+                    \* (binary search for the first tail position >= rel; only as many as were asked for)
+                    r0 == IF rel <= 0 THEN 0 ELSE RankP(Pb, rel)
+                    tail == [t \in 1..MinI(Len(e.out), Len(Pb) - r0) |-> Pb[r0 + t] - 1]
+                    offs == lead \o tail
+                    exp == [t \in 1..Len(e.out) |-> IF t <= Len(offs) THEN BigAdd(base, offs[t]) ELSE <<NONE>>]
+                    tag == "BIG." \o o.kind \o ".iter." \o e.m
+                    whole == e.m \in {"ones", "zeros"}
+                    \* from the very start an iterator over the leading run's bit yields 0, 1, 2, ...
+                    expstart == [t \in 1..Len(e.out) |-> SmallNum(t - 1)]
+                    want == IF whole /\ bit = fill THEN expstart ELSE exp
+                    startok == whole \/ e.start = BigAdd(base, e.rel)
+                IN  IF ~startok THEN ToolErr(e, "big iterator start not rendered as base + offset") /\ Advance(ResOk(0, {}), objs)
+                    ELSE Advance(Check(e, o, tag, e.out = want, e.out, {want}), objs)
+
 MetaBig ==
     /\ IsEv("metabig")
     /\ LET e == Ev
@@ -783,7 +812,7 @@ Other ==
     /\ l <= NRec
     /\ Rec[l].k \notin {"reset", "newt", "newq", "newb", "meta", "qg", "relm", "relo", "uq", "mut",
                         "conv", "drop", "eq", "ith", "thr", "pure", "crash", "xb", "space", "util", "spstd",
-                        "newbig", "qbig", "metabig", "tu"}
+                        "newbig", "qbig", "metabig", "ithbig", "tu"}
     /\ Advance(ResOk(0, {}), objs)
 
 Finish ==
@@ -795,7 +824,7 @@ Finish ==
 Init == /\ l = 1 /\ objs = << >> /\ nbad = 0 /\ ncell = 0 /\ cov = {} /\ done = FALSE
 
 Next == \/ Reset \/ NewObj \/ Meta \/ QGrid \/ RelM \/ RelO \/ Uq \/ Mut \/ Conv \/ Drop
-        \/ EqEv \/ Ith \/ Thr \/ Pure \/ Crash \/ XB \/ SpaceEv \/ SpaceStdEv \/ UtilEv \/ TuEv \/ NewBig \/ QBig \/ MetaBig \/ Other \/ Finish
+        \/ EqEv \/ Ith \/ Thr \/ Pure \/ Crash \/ XB \/ SpaceEv \/ SpaceStdEv \/ UtilEv \/ TuEv \/ NewBig \/ QBig \/ MetaBig \/ IthBig \/ Other \/ Finish
 
 Spec == Init /\ [][Next]_vars
 
